@@ -61,6 +61,9 @@ fn main() {
         }
         rep.replay_only = Some(r);
     }
+    if let Some(t) = arg(&args, "--tiny").and_then(|s| s.parse::<u64>().ok()) {
+        rv::report::TINY.store(t, std::sync::atomic::Ordering::Relaxed);
+    }
     rv::report::install_panic_hook();
     rv::checks::run(&check, &rep);
     let j = rep.to_json();
